@@ -114,6 +114,13 @@ def main():
     repo = "/repo"
     if "--repo" in sys.argv:
         repo = os.path.abspath(sys.argv[sys.argv.index("--repo") + 1])
+    # calibration only (tools/mutate.py): --mutant <rel>=<file> reads the source of /repo/<rel> from <file>
+    # instead, so that a changed copy can be checked without writing into /repo
+    mutant = {}
+    for i, a in enumerate(sys.argv):
+        if a == "--mutant":
+            rel, path = sys.argv[i + 1].split("=", 1)
+            mutant[os.path.join(repo, rel)] = path
     os.makedirs(out, exist_ok=True)
     replace = {}
     nfiles = 0
@@ -126,13 +133,13 @@ def main():
             if not fn.endswith(".go") or fn.endswith("_test.go"):
                 continue
             p = os.path.join(full, fn)
-            with open(p, encoding="utf-8") as f:
+            with open(mutant.get(p, p), encoding="utf-8") as f:
                 src = f.read()
             rel = d + "/" + fn
             if d == "ext/datasource/file" and rel not in VFSNOTIFY_FILES:
                 continue
             new, n = rewrite_source(src, vtime=rel in VTIME_FILES, vfsnotify=rel in VFSNOTIFY_FILES)
-            if n == 0:
+            if n == 0 and p not in mutant:
                 continue
             dst = os.path.join(out, "src", d, fn)
             os.makedirs(os.path.dirname(dst), exist_ok=True)
@@ -166,6 +173,8 @@ def main():
             print("mkoverlay: accessor %s has no package dir %s" % (fn, target_dir), file=sys.stderr)
             continue
         replace[os.path.join(target_dir, "zz_verif_export.go")] = os.path.join(exp, fn)
+    for p, path in mutant.items():
+        replace.setdefault(p, path)
     ov = os.path.join(out, "overlay.json")
     tmp = ov + ".tmp%d" % os.getpid()
     with open(tmp, "w") as f:
